@@ -515,3 +515,121 @@ func VerifC17_Deep() {
 	verifObserve("validate", validate)
 	verifReach("C17/deep/end")
 }
+
+// struct-mapped objects: the same faults planted into native Go structs (Validate) and into the raw maps they are
+// unserialized from; a struct-mapped one-of member, a list of structs and a nested struct
+type verifC17Outer struct {
+	Inner verifStructA   `json:"inner"`
+	List  []verifStructA `json:"list"`
+	One   any            `json:"one"`
+	Name  string         `json:"name"`
+}
+
+func init() { verifRegister("VerifC17_Structs", VerifC17_Structs) }
+
+func VerifC17_Structs() {
+	min := nondetInt64("min")
+	mkInner := func() *ObjectSchema {
+		return NewStructMappedObjectSchema[verifStructA]("Inner", map[string]*PropertySchema{
+			"a": NewPropertySchema(NewIntSchema(&min, nil, nil), nil, true, nil, nil, nil, nil, nil),
+			"b": NewPropertySchema(NewStringSchema(&verifOne, &verifTwo, nil), nil, false, nil, nil, nil, nil, nil),
+		})
+	}
+	outer := NewStructMappedObjectSchema[verifC17Outer]("Outer", map[string]*PropertySchema{
+		"inner": NewPropertySchema(mkInner(), nil, true, nil, nil, nil, nil, nil),
+		"list":  NewPropertySchema(NewListSchema(mkInner(), nil, &verifTwo), nil, false, nil, nil, nil, nil, nil),
+		"one":   NewPropertySchema(NewOneOfStringSchema[any](map[string]Object{"k": mkInner()}, "d", false), nil, false, nil, nil, nil, nil, nil),
+		"name":  NewPropertySchema(NewStringSchema(&verifTwo, nil, nil), nil, false, nil, nil, nil, nil, nil),
+	})
+	a0, a1, a2, a3 := nondetInt64("a0"), nondetInt64("a1"), nondetInt64("a2"), nondetInt64("a3")
+	verifAssume(vAnd(vAnd(a0 >= min, a1 >= min), vAnd(a2 >= min, a3 >= min)))
+	bad := nondetInt64("bad")
+	verifAssume(bad < min)
+	fault := nondetChoice("fault", 9)
+	validate := nondetBool("validate")
+	var want []string
+	var err error
+	if validate {
+		v := verifC17Outer{
+			Inner: verifStructA{A: a0, B: "x"},
+			List:  []verifStructA{{A: a1, B: "y"}, {A: a2, B: "z"}},
+			One:   verifStructA{A: a3, B: "w"},
+			Name:  "nm",
+		}
+		switch fault {
+		case 1:
+			v.Inner.A = bad
+			want = []string{"inner", "a"}
+		case 2:
+			v.List[1].A = bad
+			want = []string{"list", "[1]", "a"}
+		case 3:
+			v.One = verifStructA{A: bad, B: "w"}
+			want = []string{"one", "a"}
+		case 4:
+			v.Inner.B = "toolong"
+			want = []string{"inner", "b"}
+		case 5:
+			v.List = append(v.List, verifStructA{A: a1, B: "y"})
+			want = []string{"list"}
+		case 6:
+			v.Name = "n"
+			want = []string{"name"}
+		case 7:
+			v.List[0].B = "toolong"
+			want = []string{"list", "[0]", "b"}
+		case 8:
+			v.One = verifStructA{A: a3, B: "toolong"}
+			want = []string{"one", "b"}
+		}
+		err = outer.Validate(v)
+	} else {
+		inner := map[string]any{"a": a0, "b": "x"}
+		l0 := map[string]any{"a": a1, "b": "y"}
+		l1 := map[string]any{"a": a2, "b": "z"}
+		one := map[string]any{"d": "k", "a": a3, "b": "w"}
+		raw := map[string]any{"inner": inner, "list": []any{l0, l1}, "one": one, "name": "nm"}
+		switch fault {
+		case 1:
+			inner["a"] = bad
+			want = []string{"inner", "a"}
+		case 2:
+			l1["a"] = bad
+			want = []string{"list", "[1]", "a"}
+		case 3:
+			one["a"] = bad
+			want = []string{"one", "a"}
+		case 4:
+			inner["b"] = "toolong"
+			want = []string{"inner", "b"}
+		case 5:
+			raw["list"] = []any{l0, l1, l0}
+			want = []string{"list"}
+		case 6:
+			raw["name"] = "n"
+			want = []string{"name"}
+		case 7:
+			l0["b"] = "toolong"
+			want = []string{"list", "[0]", "b"}
+		case 8:
+			delete(one, "a")
+			want = []string{"one", "a"}
+		}
+		_, err = outer.Unserialize(raw)
+	}
+	op := "unserialize"
+	if validate {
+		op = "validate"
+	}
+	if fault == 0 {
+		verifAssert("C17/structs/valid-value-accepted/"+op, err == nil)
+	} else {
+		verifAssert("C17/structs/fault-rejected/"+op+fmt.Sprintf("/%d", fault), err != nil)
+		if err != nil {
+			verifAssert("C17/structs/path-leads-to-element/"+op+fmt.Sprintf("/%d", fault), verifPathIsModuloOneOf(err, want...))
+		}
+	}
+	verifObserve("rejected", err != nil)
+	verifObserve("validate", validate)
+	verifReach("C17/structs/end")
+}
